@@ -57,6 +57,8 @@ type EvRet struct {
 	ValNil  bool    `json:"valnil"`  // convert mode: returned interface{} is nil
 	Lack    bool    `json:"lack"`    // error text says an argument could not / cannot be satisfied
 	ValOK   bool    `json:"valok"`   // convert mode: the returned value is assignable to the requested type
+	// a sibling function built from the same default option array (one element longer) no longer receives its own default
+	SibBad bool `json:"sibbad"`
 }
 
 type EvRedef struct {
